@@ -1087,6 +1087,7 @@ func init() {
 			})
 		},
 		Reach: []string{"compiled", "accepted", "parsed", "tree", "ran"},
+		ReachEntry: map[string]string{"parsed": "VerifC06Tokens", "tree": "VerifC06Tokens"},
 		Bounds: func(tier string) map[string]interface{} {
 			l, n := 2, 3
 			if tier == "thorough" {
